@@ -56,7 +56,7 @@ PROPS = {
   "level_text": "Each (old,new) pair is decided exactly over the enumerated packet universe at every step; the search is over pairs. Joined two-command lines are one atomic step, object-group membership edits are excluded exactly as the statement says.",
   "level_note": "Trusts the node model's ACL arithmetic and the entry parser of the oracle (generator vocabulary: ip/tcp/udp/icmp, host/net/any/group, eq/range). ASA, IOS (ACLs and routes), Linux (routes).",
   "rule": "case = cisco pair; non-trivial = accepted, non-empty script; distinct = hash of texts",
-  "quick": B(12000, 40), "thorough": B(1000000, 900),
+  "quick": B(24000, 40), "thorough": B(1000000, 900),
   "real": REAL_PLAN, "stubs": STUB_PLAN, "assumptions": ASSUME_NODE, "min_nontrivial": 50,
  },
 }
@@ -168,7 +168,7 @@ PROPS.update({
   "level_text": "Seeded search over interleavings: where in the holder's run each contender starts, which parked process proceeds, whether the holder is killed. flock(2) and the file system are real, so release-on-kill is the kernel's. Oracles: no two sessions on one device, a loser exits 1 with 'Approve in progress' and leaves status/history/logs/device untouched, the lock history is a legal try-lock history (no spurious failure, lock free after kill).",
   "level_note": "Real processes use the real clock (goexpect poll ticker), so no timing faults in this mode; device = IOS node inside the tool process with its state in a file.",
   "rule": "evaluations = multi-process runs; non-trivial = run with at least one loser or a kill; distinct = hash of the event log",
-  "quick": B(400, 60), "thorough": B(12000, 1500),
+  "quick": B(1200, 60), "thorough": B(12000, 1500),
   "real": ["cmd/drc and cmd/do-approve main packages rebuilt with the hook installer (3-line mains)", "pkg/drc, pkg/doapprove, pkg/device (SetLock, flock)", "pkg/status", "kernel flock, file system"],
   "stubs": ["ssh: in-process IOS node (state file)", "the two main wrappers"], "assumptions": ASSUME_LIVE, "min_nontrivial": 10,
  },
